@@ -72,7 +72,7 @@ Proof.
   pose proof (Hh o Horig) as Hok. unfold ri_hint_ok in Hok. rewrite Et in Hok.
   destruct (alist_find (hints ra) "implements_variant") as [[]|]; try discriminate; simpl; apply IH;
     intros k3 o3 id3 Hin3; apply ri_set_in_inv in Hin3; (destruct Hin3 as [Hin3|Heq]; [eapply Hg; eassumption|]);
-    inversion Heq; subst; right; exists o; eexists; eexists; eexists; (split; [assumption|split; [reflexivity|eapply ri_good_fields; eassumption]]).
+    inversion Heq; subst; right; exists o; eexists; eexists; eexists; (split; [assumption|split; [reflexivity|eapply ri_good_struct; eassumption]]).
 Qed.
 
 Theorem remove_intersections_no_panic ss : ri_hints_ok ss = true -> is_ok' (remove_intersections ss) = true.
@@ -205,3 +205,202 @@ Proof.
     destruct (pev_object o); simpl in *; rewrite <- Eo; try reflexivity. apply IHl. }
   specialize (G (s_objects s) []). destruct (mor_loop pev_object (s_objects s) []); simpl in *; rewrite <- G; reflexivity.
 Qed.
+
+(* =====================================================================================
+   DisjunctionInferMapping: a sufficient condition for "returns schemas", and the inputs on which it panics
+   ===================================================================================== *)
+Definition dim_field_ok (f : field) : bool :=
+  match f_type f with
+  | TScalar _ _ v _ => match v with DNil | DStr _ => true | _ => false end
+  | TConstRef _ _ _ v => is_dstr v
+  | _ => true
+  end.
+(* a branch that does not resolve stops the pass quietly; one that resolves must be a struct whose constant
+   fields hold strings *)
+Definition dim_branch_ok (s : schema) (b : ty) : bool :=
+  match resolve s b with
+  | Ok None => true
+  | Ok (Some (TStruct _ _ fs)) => forallb dim_field_ok fs
+  | _ => false
+  end.
+Definition dim_safe (s : schema) (t : ty) : bool :=
+  match t with
+  | TDisj _ d =>
+      negb (has_only_refs (d_branches d)) ||
+      (negb (seqb (d_disc d) "") && negb (match d_mapping d with [] => true | _ => false end)) ||
+      (negb (match d_branches d with [] => true | _ => false end) && forallb (dim_branch_ok s) (d_branches d))
+  | _ => true
+  end.
+Definition dim_safe_schemas (ss : schemas) : bool :=
+  forallb (fun s => forallb (vis_all (dim_safe s)) (schema_types s)) ss.
+
+Lemma dim_branch_resolves s b : dim_branch_ok s b = true -> is_ok' (resolve s b) = true.
+Proof. unfold dim_branch_ok. destruct (resolve s b); try discriminate. reflexivity. Qed.
+
+Theorem dim_no_crash ss : dim_safe_schemas ss = true -> is_ok' (disjunction_infer_mapping ss) = true.
+Proof.
+  intros H. unfold disjunction_infer_mapping.
+  apply (W_visit_schemas_disj0 Wok Wok_ok is_ok_bind _ dim_safe).
+  2:{ intros s t Hs Ht. unfold dim_safe_schemas in H. rewrite forallb_forall in H. specialize (H s Hs).
+      rewrite forallb_forall in H. apply H. exact Ht. }
+  intros s a d Hs. unfold dim_disj. cbn zeta.
+  destruct (negb (has_only_refs (d_branches d))) eqn:E1; [reflexivity|].
+  destruct (negb (seqb (d_disc d) "") && negb (match d_mapping d with [] => true | _ => false end)) eqn:E2; [reflexivity|].
+  simpl in Hs. rewrite E1, E2 in Hs. simpl in Hs. apply andb_true_iff in Hs. destruct Hs as [Hne Hall].
+  apply negb_false_iff in E1. unfold has_only_refs in E1.
+  apply is_ok_bind.
+  - destruct (seqb (d_disc d) ""); [|reflexivity]. unfold dim_infer. apply is_ok_bind; [|intros l _; reflexivity].
+    unfold dim_infer_candidates. apply is_ok_bind.
+    + generalize (@nil (string * list string)) as acc. revert Hall. generalize (d_branches d) as l.
+      induction l as [|b r IH]; intros Hall acc; [reflexivity|]. simpl in Hall. apply andb_true_iff in Hall. destruct Hall as [Hb Hr].
+      apply is_ok_bind; [apply dim_branch_resolves; exact Hb|]. intros r1 _.
+      destruct r1 as [[a1 d1|a1 v1|a1 vs1|a1 i1 v1|a1 dh1 fs1|a1 pk1 n1|a1 pk1 n1 v1|a1 k1 v1 cs1|a1 bs1|a1 v1|a1 k1]|]; try (apply IH; exact Hr).
+      destruct b; apply IH; exact Hr.
+    + intros cands _. destruct (d_branches d) as [|b0 r]; [discriminate|]. simpl in E1. apply andb_true_iff in E1. destruct E1 as [E0 _].
+      destruct b0; try discriminate. destruct (alist_find cands name); reflexivity.
+  - intros disc _. destruct (match d_mapping d with [] => true | _ => false end); [|reflexivity].
+    apply is_ok_bind; [|intros [m|] _; reflexivity]. unfold dim_build. destruct (seqb disc ""); [reflexivity|].
+    generalize (@nil (string * string)) as acc. revert Hall E1. generalize (d_branches d) as l.
+    induction l as [|b r IH]; intros Hall E1 acc; [reflexivity|]. simpl in Hall, E1.
+    apply andb_true_iff in Hall. destruct Hall as [Hb Hr]. apply andb_true_iff in E1. destruct E1 as [Eb Er].
+    unfold dim_branch_ok in Hb. destruct (resolve s b) as [[r1|]| | |]; try discriminate; simpl; [|reflexivity].
+    destruct r1 as [a1 d1|a1 v1|a1 vs1|a1 i1 v1|a1 dh1 fs1|a1 pk1 n1|a1 pk1 n1 v1|a1 k1 v1 cs1|a1 bs1|a1 v1|a1 k1]; try discriminate.
+    destruct b; try discriminate.
+    destruct (find (fun f => seqb (f_name f) disc) fs1) as [f|] eqn:Ef; [|reflexivity].
+    apply find_some in Ef. destruct Ef as [Hin _]. rewrite forallb_forall in Hb. specialize (Hb f Hin). unfold dim_field_ok in Hb.
+    destruct (f_type f) as [a2 d2|a2 v2|a2 vs2|a2 i2 v2|a2 dh2 fs2|a2 pk2 n2|a2 pk2 n2 v2|a2 k2 v2 cs2|a2 bs2|a2 v2|a2 k2]; try reflexivity.
+    + destruct v2; try discriminate. apply IH; assumption.
+    + destruct v2; try discriminate; [reflexivity|apply IH; assumption].
+Qed.
+
+(* the three ways it panics, each excluded by [dim_safe_schemas] *)
+Local Open Scope string_scope.
+Definition w_dim_empty : schemas :=
+  [mkSchema "p" tm0 "" ty_zero [("U", mkObject "U" [] (TDisj A0 (mkDisj [] "" [])) "p" "U")]].
+Definition w_dim_scalar_branch : schemas :=
+  [mkSchema "p" tm0 "" ty_zero
+    [("A", mkObject "A" [] (TScalar A0 KString DNil []) "p" "A");
+     ("U", mkObject "U" [] (TDisj A0 (mkDisj [TRef A0 "p" "A"] "kind" [])) "p" "U")]].
+Definition w_dim_bool_constant : schemas :=
+  [mkSchema "p" tm0 "" ty_zero
+    [("A", mkObject "A" [] (TStruct A0 [] [mkField "kind" [] (TScalar A0 KBool (DBool true) []) true]) "p" "A");
+     ("U", mkObject "U" [] (TDisj A0 (mkDisj [TRef A0 "p" "A"] "kind" [])) "p" "U")]].
+Example dim_panics :
+  (dim_safe_schemas w_dim_empty = false /\
+   disjunction_infer_mapping w_dim_empty = Panic "index out of range [0] with length 0") /\
+  (dim_safe_schemas w_dim_scalar_branch = false /\
+   disjunction_infer_mapping w_dim_scalar_branch = Panic "invalid memory address or nil pointer dereference") /\
+  (dim_safe_schemas w_dim_bool_constant = false /\
+   disjunction_infer_mapping w_dim_bool_constant = Panic "interface conversion: interface {} is not string").
+Proof. repeat split; vm_compute; reflexivity. Qed.
+Local Close Scope string_scope.
+
+(* =====================================================================================
+   DisjunctionOfConstantsToEnum: never an error; a panic only through an enum member whose type is not a scalar;
+   otherwise it returns schemas or recurses forever (reference cycles, mutually recursive disjunctions)
+   ===================================================================================== *)
+Definition ok_or_fuel' {A} (r : res A) : bool := match r with Ok _ | OutOfFuel => true | _ => false end.
+Definition Wof : forall A, res A -> bool := @ok_or_fuel'.
+Lemma Wof_ok A (x : A) : Wof A (Ok x) = true. Proof. reflexivity. Qed.
+Lemma ok_or_fuel_bind : forall A B (r : res A) (k : A -> res B),
+  Wof A r = true -> (forall x, r = Ok x -> Wof B (k x) = true) -> Wof B (bind r k) = true.
+Proof. intros A B r k Hr Hk. destruct r; try discriminate; [apply Hk; reflexivity|reflexivity]. Qed.
+
+Definition p_badenum (_ : bool) (t : ty) : bool :=
+  match t with TEnum _ vs => negb (forallb (fun v => is_scalar (ev_type v)) vs) | _ => false end.
+Definition enums_scalar_ty (t : ty) : bool := negb (any_sub p_badenum false t).
+Definition enums_scalar (ss : schemas) : bool := forallb (fun s => forallb enums_scalar_ty (schema_types s)) ss.
+
+Lemma badenum_irrel t i j : any_sub p_badenum i t = any_sub p_badenum j t.
+Proof. apply any_sub_inter_irrel. reflexivity. Qed.
+
+Lemma objs_get_In : forall l k o, objs_get l k = Some o -> exists k', In (k', o) l.
+Proof.
+  induction l as [|[k' o'] r IH]; simpl; intros k o H; [discriminate|].
+  destruct (seqb k' k); [inversion H; subst; exists k'; left; reflexivity|].
+  destruct (IH _ _ H) as [k2 Hin]. exists k2. right. exact Hin.
+Qed.
+
+Section Docte.
+  Variable ss : schemas.
+  Hypothesis Hobjs : forall o, In o (objects_of ss) -> enums_scalar_ty (o_type o) = true.
+
+  Lemma rtt_W fuel : forall t, Wof _ (resolve_to_type_in fuel ss t) = true.
+  Proof.
+    induction fuel as [|f IH]; intros t; destruct t; try reflexivity. simpl.
+    destruct (locate_object ss pkg name); [apply IH|reflexivity].
+  Qed.
+  Lemma rtt_clean fuel : forall t r, enums_scalar_ty t = true -> resolve_to_type_in fuel ss t = Ok r -> enums_scalar_ty r = true.
+  Proof.
+    induction fuel as [|f IH]; intros t r Ht H; destruct t; simpl in H; try (inversion H; subst; exact Ht); try discriminate.
+    destruct (locate_object ss pkg name) as [o|] eqn:El; [|inversion H; subst; exact Ht].
+    assert (In o (objects_of ss)) as Ho.
+    { unfold locate_object in El. destruct (locate ss pkg) as [s|] eqn:Es; [|discriminate].
+      unfold locate in Es. apply find_some in Es. destruct Es as [Hs _]. destruct (objs_get_In _ _ _ El) as [k Hin].
+      apply in_objects_of. exists s, k. split; assumption. }
+    apply (IH _ _ (Hobjs o Ho) H).
+  Qed.
+
+  Lemma docte_resolves_W : forall fuel t st, enums_scalar_ty t = true -> Wof _ (docte_resolves fuel ss t st) = true.
+  Proof.
+    induction fuel as [|f IH]; intros t st Ht; [reflexivity|]. cbn [docte_resolves].
+    apply ok_or_fuel_bind; [apply rtt_W|]. intros r Hr. pose proof (rtt_clean _ _ _ Ht Hr) as Pr.
+    destruct r as [a d|a v|a vs|a i v|a dh fs|a pk n|a pk n v|a k v cs|a bs|a v|a k]; try reflexivity.
+    - (* a disjunction: its branches *)
+      assert (forall b, In b (d_branches d) -> enums_scalar_ty b = true) as Hb.
+      { intros b Hin. unfold enums_scalar_ty in *. apply negb_true_iff in Pr. apply negb_true_iff. simpl in Pr.
+        apply (proj1 (existsb_false_iff _ _) Pr b Hin). }
+      revert st Hb. generalize (d_branches d) as l. induction l as [|b r IHl]; intros st Hb; [reflexivity|].
+      apply ok_or_fuel_bind; [apply IH; apply Hb; left; reflexivity|]. intros x _.
+      destruct (fst x); [apply IHl; intros b1 H1; apply Hb; right; exact H1|reflexivity].
+    - (* an enum: its members *)
+      assert (forallb (fun v => is_scalar (ev_type v)) vs = true) as Hm.
+      { unfold enums_scalar_ty in Pr. apply negb_true_iff in Pr. simpl in Pr. rewrite orb_false_r in Pr. apply negb_false_iff in Pr. exact Pr. }
+      clear Hr Pr. revert st Hm. induction vs as [|m r IHl]; intros st Hm; [reflexivity|]. simpl in Hm. apply andb_true_iff in Hm. destruct Hm as [H1 H2].
+      unfold member_kind at 1. destruct (ev_type m) as [a1 d1|a1 v1|a1 vs1|a1 i1 v1|a1 dh1 fs1|a1 pk1 n1|a1 pk1 n1 v1|a1 k1 v1 cs1|a1 bs1|a1 v1|a1 k1]; try discriminate. cbn [bind].
+      destruct (docte_valid k1 (fst st)) as [ok cand]. destruct ok; [apply IHl; exact H2|reflexivity].
+    - (* a scalar *)
+      destruct (dyn_is_nil v); [reflexivity|]. destruct (docte_valid k (fst st)) as [ok cand]. destruct ok; reflexivity.
+  Qed.
+End Docte.
+
+Lemma vis_all_enums_scalar : forall t i, any_sub p_badenum i t = false -> vis_all enums_scalar_ty t = true.
+Proof.
+  induction t as [a d IH|a v IH|a vs IH|a i v IHi IHv|a dh fs IHd IHf|a pk n|a pk n v|a k v cs|a bs IH|a v|a k]
+    using ty_ind'; intros x H; try reflexivity.
+  - simpl. unfold enums_scalar_ty. rewrite (badenum_irrel _ false x), H. reflexivity.
+  - simpl in *. eapply IH; exact H.
+  - simpl in *. apply orb_false_iff in H. destruct H as [H1 H2]. rewrite (IHi _ H1), (IHv _ H2). reflexivity.
+  - simpl in *. apply forallb_forall. intros f Hf. rewrite Forall_forall in IHf. eapply IHf; [exact Hf|].
+    apply (proj1 (existsb_false_iff _ _) H f Hf).
+  - simpl in *. apply forallb_forall. intros b Hb. rewrite Forall_forall in IH. eapply IH; [exact Hb|].
+    apply (proj1 (existsb_false_iff _ _) H b Hb).
+Qed.
+
+Theorem docte_ok_or_fuel ss : enums_scalar ss = true -> ok_or_fuel' (disjunction_of_constants_to_enum ss) = true.
+Proof.
+  intros H. unfold disjunction_of_constants_to_enum. unfold enums_scalar in H. rewrite forallb_forall in H.
+  assert (forall o, In o (objects_of ss) -> enums_scalar_ty (o_type o) = true) as Hobjs.
+  { intros o Ho. apply in_objects_of in Ho. destruct Ho as [s [k [Hs Hko]]]. specialize (H s Hs). rewrite forallb_forall in H.
+    apply H. right. apply in_map_iff. exists (k, o). split; [reflexivity|assumption]. }
+  apply (W_visit_schemas_disj0 Wof Wof_ok ok_or_fuel_bind _ (fun _ => enums_scalar_ty)).
+  - intros s a d Hs. unfold docte_disj. destruct (d_branches d) as [|b0 [|b1 r]] eqn:Eb; try reflexivity.
+    apply ok_or_fuel_bind; [apply docte_resolves_W; assumption|]. intros x _. destruct (fst x); reflexivity.
+  - intros s t Hs Ht. specialize (H s Hs). rewrite forallb_forall in H. specialize (H t Ht).
+    unfold enums_scalar_ty in H. apply negb_true_iff in H. eapply vis_all_enums_scalar. exact H.
+Qed.
+
+Local Open Scope string_scope.
+Definition w_docte_member : schemas :=
+  [mkSchema "p" tm0 "" ty_zero
+    [("E", mkObject "E" [] (TEnum A0 [mkEnumVal (TArray A0 (TScalar A0 KString DNil [])) "a" (DStr "a")]) "p" "E");
+     ("U", mkObject "U" [] (TDisj A0 (mkDisj [TRef A0 "p" "E"; TScalar A0 KString (DStr "b") []] "" [])) "p" "U")]].
+Definition w_docte_recursive : schemas :=
+  [mkSchema "p" tm0 "" ty_zero
+    [("U", mkObject "U" [] (TDisj A0 (mkDisj [TScalar A0 KString (DStr "b") []; TRef A0 "p" "U"] "" [])) "p" "U")]].
+Example docte_panics_or_diverges :
+  (enums_scalar w_docte_member = false /\
+   disjunction_of_constants_to_enum w_docte_member = Panic "invalid memory address or nil pointer dereference") /\
+  (enums_scalar w_docte_recursive = true /\ disjunction_of_constants_to_enum w_docte_recursive = OutOfFuel).
+Proof. repeat split; vm_compute; reflexivity. Qed.
+Local Close Scope string_scope.
